@@ -437,16 +437,16 @@ func prefixedForwarding(c *an.Ctx, rule string) {
 		if !ok {
 			return ""
 		}
-		if an.ShortCallee(&call.Call) == "(*bufio.Writer).Write" && (isBuf(call.Call.Args[0]) || isBuf(st.Root(call.Call.Args[0]))) {
-			if isOneOf(call.Call.Args[1], line) || isOneOf(st.Root(call.Call.Args[1]), line) {
+		if bw, isW := an.IsCallTo(call, "(*bufio.Writer).Write"); isW && (isBuf(bw.Args[0]) || isBuf(st.Root(bw.Args[0]))) {
+			if isOneOf(bw.Args[1], line) || isOneOf(st.Root(bw.Args[1]), line) {
 				return "write(line)"
 			}
-			for _, src := range an.Sources(st.Root(call.Call.Args[1])) {
+			for _, src := range an.Sources(st.Root(bw.Args[1])) {
 				if isOneOf(st.Root(src), line) {
 					return "write(line)"
 				}
 			}
-			return "write(" + an.Prov(call.Call.Args[1]) + ")"
+			return "write(" + an.Prov(bw.Args[1]) + ")"
 		}
 		return ""
 	}
@@ -500,10 +500,11 @@ func prefixedForwarding(c *an.Ctx, rule string) {
 		}
 		if retOK {
 			for _, ci := range an.CallsIn(w, "(*bufio.Writer).Write") {
-				if !isBuf(ci.Common().Args[0]) || !an.Dominates(lfCall, ci.(ssa.Instruction)) {
+				bw, _ := an.IsCallTo(ci, "(*bufio.Writer).Write")
+				if !isBuf(bw.Args[0]) || !an.Dominates(lfCall, ci.(ssa.Instruction)) {
 					continue
 				}
-				for _, src := range an.Sources(ci.Common().Args[1]) {
+				for _, src := range an.Sources(bw.Args[1]) {
 					if e, ok := src.(*ssa.Extract); ok && e.Tuple == ssa.Value(lfCall) && e.Index == idx {
 						tailOK = true
 					}
@@ -518,8 +519,9 @@ func prefixedForwarding(c *an.Ctx, rule string) {
 		if lfCall != nil {
 			break
 		}
-		if !loop.Blocks[ci.Block()] && isBuf(ci.Common().Args[0]) {
-			for _, src := range an.Sources(ci.Common().Args[1]) {
+		bw, _ := an.IsCallTo(ci, "(*bufio.Writer).Write")
+		if !loop.Blocks[ci.Block()] && isBuf(bw.Args[0]) {
+			for _, src := range an.Sources(bw.Args[1]) {
 				if (rem != nil && src == ssa.Value(rem)) || src == ssa.Value(param) {
 					tailOK = true
 				}
@@ -556,8 +558,8 @@ func prefixedForwarding(c *an.Ctx, rule string) {
 			if !ok {
 				return false
 			}
-			if an.ShortCallee(&call.Call) == "(*bufio.Writer).Flush" {
-				return an.FieldProv(call.Call.Args[0]) == "prefixedOutputDecorator.w"
+			if bf, isF := an.IsCallTo(call, "(*bufio.Writer).Flush"); isF {
+				return an.FieldProv(bf.Args[0]) == "prefixedOutputDecorator.w"
 			}
 			callee := call.Call.StaticCallee()
 			return depth > 0 && callee != nil && callee.Pkg == wf.Pkg && flushesAlways(callee, depth-1)
@@ -947,6 +949,20 @@ func presentationOnly(c *an.Ctx, rule string) {
 					}
 					if _, ok := ref.(*ssa.Return); ok && fn == r.run {
 						leaks = true
+					}
+				}
+			}
+			// … nor wrapped into one that is (a named result assigned in the deferred function)
+			if fate := c.P.ErrFate(call, noReturn); fate.Kind == "propagated" || fate.Kind == "converted" {
+				leaks = true
+			}
+			if !leaks {
+				// a value derived from the footer's error stored into a variable of the enclosing function
+				for _, u := range c.P.FlowsFrom(fn, []ssa.Value{call}, 1) {
+					if st, ok := u.In.(*ssa.Store); ok {
+						if _, isFV := st.Addr.(*ssa.FreeVar); isFV {
+							leaks = true
+						}
 					}
 				}
 			}
